@@ -53,6 +53,11 @@ func raceOp(sh *raceShared, op string, k int) (res string) {
 		}
 		az.AddFact(biscuit.Fact{Predicate: biscuit.Predicate{Name: "resource", IDs: []biscuit.Term{biscuit.String(fmt.Sprintf("file%d", k%3))}}})
 		az.AddCheck(sh.check)
+		// a regular expression evaluated by every goroutine, some patterns shared and some
+		// seen for the first time under concurrency
+		if rc, err := sh.p.Check(fmt.Sprintf(`check if resource($r), $r.matches("^fil[a-z]%d?[0-9]+(x%d)?$")`, k%4, raceEpoch), nil); err == nil {
+			az.AddCheck(rc)
+		}
 		az.AddPolicy(sh.policy)
 		return authErrClass(az.Authorize())
 	case "query":
@@ -127,6 +132,17 @@ func raceShare(r *Rng) (*raceShared, error) {
 		b.Facts = append(b.Facts, Pred{Name: "right", Terms: []Term{S(fmt.Sprintf("s%d", i))}})
 	}
 	b.Facts = append(b.Facts, Pred{Name: "resource", Terms: []Term{S("file1")}})
+	// set terms whose elements are not in the order in which they print: printing must not
+	// reorder the token's own data under the other goroutines' feet
+	b.Facts = append(b.Facts, Pred{Name: "ports", Terms: []Term{SetOf(I(3), I(10), I(25))}},
+		Pred{Name: "ports", Terms: []Term{SetOf(I(2), I(1))}})
+	for k := 0; k < 16; k++ {
+		var el []Term
+		for j := 0; j < 8; j++ {
+			el = append(el, I(int64(9*(8-j)+k))) // descending, and "9" sorts after "10": never in printed order
+		}
+		b.Facts = append(b.Facts, Pred{Name: "ports", Terms: []Term{SetOf(el...)}})
+	}
 	blocks := []Block{b, g.block(2, 1, 1)}
 	// 0-6 further blocks: the envelope's block list sits at various distances from a capacity
 	// boundary, so that concurrent Appends on the shared token would meet in the same slot if
@@ -154,6 +170,8 @@ func raceShare(r *Rng) (*raceShared, error) {
 	return &raceShared{tok: tok, check: ck, policy: pol, rule: rl, p: p}, nil
 }
 
+var raceEpoch int // mix number: patterns differ from mix to mix, so each mix meets some for the first time
+
 // raceWorkMain: child process. Prints "MIX <i> <goroutine> <op> <k> <result> <sequential>" lines.
 func raceWorkMain(args []string) {
 	var seed uint64 = 1
@@ -165,7 +183,16 @@ func raceWorkMain(args []string) {
 	fmt.Fprintf(out, "RACE-ENABLED %v\n", raceEnabled)
 	for m := 0; m < mixes; m++ {
 		runtime.GOMAXPROCS(2 + r.Intn(15))
-		sh, err := raceShare(r)
+		// two identical but separate object graphs: the sequential reference runs on its own
+		// copy, so that the shared one reaches the goroutines untouched (a first-use effect
+		// such as lazy initialisation or in-place normalisation happens under concurrency)
+		shareSeed := r.U64()
+		sh, err := raceShare(NewRng(shareSeed))
+		if err != nil {
+			fmt.Fprintf(out, "SETUP-ERROR %v\n", err)
+			continue
+		}
+		shRef, err := raceShare(NewRng(shareSeed))
 		if err != nil {
 			fmt.Fprintf(out, "SETUP-ERROR %v\n", err)
 			continue
@@ -181,14 +208,7 @@ func raceWorkMain(args []string) {
 				plans[gi] = append(plans[gi], job{Pick(r, raceOps), r.Intn(12)})
 			}
 		}
-		ref := map[job]string{}
-		for _, pl := range plans {
-			for _, j := range pl {
-				if _, ok := ref[j]; !ok {
-					ref[j] = raceOp(sh, j.op, j.k)
-				}
-			}
-		}
+		raceEpoch = m
 		results := make([][]string, gor)
 		var wg sync.WaitGroup
 		start := make(chan struct{})
@@ -204,6 +224,17 @@ func raceWorkMain(args []string) {
 		}
 		close(start)
 		wg.Wait()
+		// the sequential reference comes AFTER the concurrent phase (and on its own object
+		// graph): whatever the library does on first use — of a token, of a pattern, of a
+		// process-wide table — it does under concurrency
+		ref := map[job]string{}
+		for _, pl := range plans {
+			for _, j := range pl {
+				if _, ok := ref[j]; !ok {
+					ref[j] = raceOp(shRef, j.op, j.k)
+				}
+			}
+		}
 		bad := 0
 		for gi := range plans {
 			for ji, j := range plans[gi] {
@@ -219,7 +250,15 @@ func raceWorkMain(args []string) {
 	}
 }
 
-var raceFrameRe = regexp.MustCompile(`(?m)^\s+(\S*/repo/[^\s:]+\.go:\d+)`)
+// libraryRoot: where the library under test lives (frames of race reports are recognised by it).
+func libraryRoot() string {
+	if d := os.Getenv("VERIF_REPO"); d != "" {
+		return strings.TrimRight(d, "/") + "/"
+	}
+	return "/repo/"
+}
+
+var raceFrameRe = regexp.MustCompile(`(?m)^\s+(\S*` + regexp.QuoteMeta(libraryRoot()) + `[^\s:]+\.go:\d+)`)
 
 func runC19(c *Ctx) {
 	c.Rule = "the harness is rebuilt with -race and re-executed as a child with GORACE=log_path: per mix one shared token (unmarshalled, so byte slices are protobuf-allocated; symbol table of 3/5-7/9-15 symbols and 2-8 blocks so that clones and block lists have spare capacity), shared parsed check / policy / rule values and one shared parser.New(); G goroutines (8 quick / 16 thorough) each run a random sequence of {AuthorizerFor, Authorize on an own authorizer, Query, String, Code, GetBlockID with new symbols, CreateBlock+Add+Build+Append, Append, Seal, Serialize, RevocationIds, parser.Check on the shared parser} with GOMAXPROCS in 2..16. Violations: any data-race report whose stack touches /repo (file:line pairs recorded), or any goroutine result differing from the sequential result of the same operation. Non-trivial = every mix (distinct seeds, operation sequences and GOMAXPROCS); distinct = distinct mixes."
@@ -282,7 +321,7 @@ func runC19(c *Ctx) {
 			var frames []string
 			for _, m := range raceFrameRe.FindAllStringSubmatch(rep, -1) {
 				f := m[1]
-				for _, marker := range []string{"/repo/"} {
+				for _, marker := range []string{libraryRoot()} {
 					if i := strings.LastIndex(f, marker); i >= 0 {
 						f = f[i+len(marker):]
 					}
